@@ -260,11 +260,11 @@ func checkC09() fw.Check {
 		MinNontrivial: 30,
 		Assumptions:   []string{"refmatch decides which injected frames are legitimate replies (matching mutants only get crash/abort freedom and per-hop soundness)", "frames larger than the tool's 1024-byte buffer are delivered truncated, as the kernel does", "Linux build"},
 		Gen: func(tier string, seed int64) []fw.Case {
-			wins := []window{{1, 6}}
-			perProbe, chunks := 400, 2
+			wins := []window{{1, 6}, {250, 255}}
+			perProbe, chunks := 800, 3
 			if tier == "thorough" {
-				wins = []window{{1, 6}, {250, 255}, {3, 12}}
-				perProbe, chunks = 1500, 12
+				wins = []window{{1, 6}, {250, 255}, {3, 12}, {1, 3}}
+				perProbe, chunks = 2500, 30
 			}
 			var cases []fw.Case
 			for _, v := range refmatch.Variants {
